@@ -161,6 +161,14 @@ def run_scenario(spec, n):
                 cur = atime.over_time(cur, fd, vars=vl, estimates=list(e),
                                       verbose=False, **kw)
         tables[mode] = cur
+    # one more call on the finished table: ONE dict holding an existing column
+    # name (under another function) and a brand-new name
+    exist = spec['names'][0]
+    with common.Quiet():
+        app = atime.over_time(tables['single'], fd,
+                              vars=[{exist: cust_other, 'brand_new': cust_a}],
+                              estimates=list(est), verbose=False, **kw)
+    tables['_append'] = (app, exist)
     untouched = same(data, snap) and all(np.array_equal(a, b) for a, b in zip(
         grid0, [fd.xarray, fd.cartesian_coords, fd.r]))
     # per-step oracle
@@ -188,6 +196,17 @@ def diffs(spec, n):
     if not untouched:
         hard.append(("over_time modifies the caller's table or the shared grid object", {}))
     tk = spec['tkey']
+    app, exist = tables.pop('_append')
+    S0 = tables['single']
+    if 'brand_new' not in app:
+        hard.append(("later call with a mixed custom dict did not add the new variable", {}))
+    elif not same(np.asarray(app[exist]), np.asarray(S0[exist])):
+        hard.append(("later call re-evaluated / overwrote an existing column", {"column": exist}))
+    else:
+        for en in list(spec['est']) + (['my_est'] if spec['custom_est'] else []):
+            col = f"{exist}_{en}"
+            if col in S0 and not same(np.asarray(app[col]), np.asarray(S0[col])):
+                hard.append(("later call changed an existing estimate column", {"column": col}))
     for mode, T in tables.items():
         tcol = [T[tk][j] for j in range(len(T[tk]))]
         if [float(v) for v in tcol] != sorted(float(v) for v in tvals):
